@@ -1,4 +1,4 @@
-(* Finding F_C08_1 (DESIGN D5), repaired by repo commit 1ed8b2a:
+(* Finding F_C08_1 (DESIGN D5), repaired by repo commit d9b4822:
    LiquidOnChain.CreateOpeningTransaction never assigned its named result [vout];
    opening_tx_broadcasted always carried script_out 0.  The full statement is
    false of the model of the code before the repair.  Replay on the real code:
